@@ -10,6 +10,7 @@ CONSTANTS
   MaxArr = 8
   MaxRestart = 1
   MaxCheck = 3
+  MaxReorg = 0
   Race = FALSE
   Fix <- CodeFix
   Mut = ""
